@@ -470,6 +470,10 @@ var c08Order = core.Mon(c08, "order-independence", func(w *core.W, c *OrderCase)
 		for i := range fwd {
 			w.Count("order_comparisons")
 			if fwd[i] != other[i] {
+				if sci, perr := hostParse([]byte(list[i].Src), true); perr == nil && addressSensitiveForSure(sci, list[i].Data) {
+					w.Skip("address-dependent-output")
+					continue
+				}
 				w.Violation("order-independence", "C08/depends-on-evaluation-order", c, "same outcome in every order", fmt.Sprintf("case %d: forward %s, %s %s", i, fwd[i], mode, other[i]),
 					fmt.Sprintf("%q gives a different outcome when the same %d (formula, data) pairs are evaluated in %s order in another process", clipS(list[i].Src, 120), len(list), mode))
 				return
